@@ -37,6 +37,10 @@ def run(F, rep, tier):
     c05.start_rules(F, rep)
     import c12
     c12.import_pass(F, rep)
+    # `from a use x` and `from b use x` in one file collide whichever comes first: nothing is let through before the two meanings of the
+    # name are compared (an arm that tolerates an occupied name for one kind of module makes the order of the two lines decide)
+    import core as _core
+    _core.borrow(rep, c12.import_names, lambda o: o["rule"] == "COLLISION", F)
     import c07
     c07.visit_loops_complete(F, rep)
     # the type of a global that is still open when a function reading it is generalised stays *shared* by the instances: were it
